@@ -577,33 +577,43 @@ Definition resolves (U : list ftype) (n : chars) : bool :=
 Definition has_class (U : list ftype) (cls : string) (n : chars) : bool :=
   match user_type U n with Some t => chars_eqb (class_of (t_def t)) (s2l cls) | None => false end.
 
-Definition wf_arg (U : list ftype) (a : farg) : bool :=
+(* vok: which constant values are admitted (wf_val: finite; py_val: every value CPython can hold) *)
+Definition wf_arg (vok : pyval -> bool) (U : list ftype) (a : farg) : bool :=
   resolves U (named_of (a_type a)) &&
-  match a_default a with Some v => wf_val v | None => true end.
-Definition wf_args (U : list ftype) (l : list farg) : bool :=
-  nodup_keys (map a_name l) && forallb (wf_arg U) l.
-Definition wf_field (U : list ftype) (f : ffield) : bool :=
-  resolves U (named_of (f_type f)) && wf_args U (f_args f).
-Definition wf_fields (U : list ftype) (l : list ffield) : bool :=
-  nodup_keys (map f_name l) && forallb (wf_field U) l.
-Definition wf_type (U : list ftype) (t : ftype) : bool :=
+  match a_default a with Some v => vok v | None => true end.
+Definition wf_args (vok : pyval -> bool) (U : list ftype) (l : list farg) : bool :=
+  nodup_keys (map a_name l) && forallb (wf_arg vok U) l.
+Definition wf_field (vok : pyval -> bool) (U : list ftype) (f : ffield) : bool :=
+  resolves U (named_of (f_type f)) && wf_args vok U (f_args f).
+Definition wf_fields (vok : pyval -> bool) (U : list ftype) (l : list ffield) : bool :=
+  nodup_keys (map f_name l) && forallb (wf_field vok U) l.
+Definition wf_type (vok : pyval -> bool) (U : list ftype) (t : ftype) : bool :=
   match t_def t with
   | DScalar _ => true
   | DObject ifs fs | DInterface ifs fs =>
-      forallb (has_class U "GraphQLInterfaceType") ifs && wf_fields U fs
+      forallb (has_class U "GraphQLInterfaceType") ifs && wf_fields vok U fs
   | DUnion ms => forallb (has_class U "GraphQLObjectType") ms
-  | DEnum vs => nodup_keys (map ev_name vs) && forallb (fun v => wf_val (ev_value v)) vs
-  | DInput fs => wf_args U fs
+  | DEnum vs => nodup_keys (map ev_name vs) && forallb (fun v => vok (ev_value v)) vs
+  | DInput fs => wf_args vok U fs
   end.
 Definition wf_root (U : list ftype) (o : option chars) : bool :=
   match o with Some n => match user_type U n with Some _ => true | None => false end | None => true end.
 
-Definition wf_fschema (S : fschema) (tm : chars) : bool :=
+Definition wf_gen (vok : pyval -> bool) (S : fschema) : bool :=
   let U := s_types S in
-  negb (mem_chars tm BUILTIN_NAMES) &&
-  nodup_keys (map t_name (user_types S)) && forallb (wf_type U) (user_types S) &&
+  nodup_keys (map t_name (user_types S)) && forallb (wf_type vok U) (user_types S) &&
   wf_root U (s_query S) && wf_root U (s_mutation S) && wf_root U (s_subscription S) &&
-  forallb (fun d => wf_args U (d_args d)) (s_directives S).
+  forallb (fun d => wf_args vok U (d_args d)) (s_directives S).
+
+(* what a graphql-core schema object graph guarantees (names resolve, maps have distinct keys,
+   constants are Python values) *)
+Definition valid_fschema (S : fschema) : bool := wf_gen py_val S.
+
+(* the guard of the round-trip theorem: valid, all float constants finite (finding
+   C16-nonfinite-float-nested), type-map variable not named like an import (finding
+   C16-typemap-name-shadows-import) *)
+Definition wf_fschema (S : fschema) (tm : chars) : bool :=
+  negb (mem_chars tm BUILTIN_NAMES) && wf_gen wf_val S.
 
 (* the schema the generated module is expected to define: the source without the standard types
    (GraphQLSchema() adds those back itself) *)
